@@ -24,7 +24,7 @@ from ..common import VERIF
 
 INVS = ["InvReadBack", "InvOnce", "InvSkipsKept", "InvSavedIsCurrent", "InvCheck"]
 PROPS = ["FailuresChangeNothing", "UntouchedOrder"]
-COMMENTS = {1: b"# first comment\n", 2: b"   # indented comment \xc3\xa9\n", 3: b"#\n"}
+COMMENTS = {1: b"# first comment\n", 2: b"   # indented comment \xc3\xa9\n", 3: b"# off:\rghost:opaquehashtext1\n"}      # (a bare CR does not end a line)
 RAW = {"raw1": "opaquehashtext1", "raw2": "$opaque$2"}
 
 
@@ -125,7 +125,8 @@ class Gamma:
     def read(self, data):
         items, recs, counts = [], {}, {}
         inv = {v: k for k, v in self.keys.items()}
-        for raw in data.splitlines(keepends=True):
+        pieces = data.split(b"\n")          # lines end at LF only (as Apache reads them); a bare CR is an ordinary character
+        for raw in [x + b"\n" for x in pieces[:-1]] + ([pieces[-1]] if pieces[-1] else []):
             s = raw.strip()
             if not s:
                 continue                                     # blank lines are not compared (see DESIGN)
